@@ -8,7 +8,11 @@ MC          : ThreadPool_MC — feeder + worker threads + queue + one sentinel p
               variant must violate NoStuck (non-vacuity).
 spec -> code: ThreadPool_Export enumerates every call shape of the model (n, threads, has-length,
               outputs per item) x functor style (generator, as regen_iter / plain function, as
-              thread_trigger); each is run on the real map_async several times under perturbed
+              thread_trigger) and, style "regen", the real worker of metadata regeneration:
+              regen_repository -> map_async -> regen_iter over a stub repository whose per-thread
+              regeneration callable succeeds, raises MetadataException or raises another error,
+              for every assignment of these outcomes to the queue positions and every thread count;
+              each is run on the real map_async several times under perturbed
               schedules (switch interval 1 us, seeded yields/sleeps in the input iterator and in
               the functors).
 code -> spec: seeded random calls (0..50 items, 1..8 threads, list / tuple / generator inputs,
@@ -37,8 +41,10 @@ class InputError(Exception):
     pass
 
 
-def one_run(map_async, case, seed):
-    """Run the real map_async once; return the event list of the run (without tid/i)."""
+def one_run(mods, case, seed):
+    """Run the real map_async once (style "regen": through the real regen_repository / regen_iter worker);
+    return the event list of the run (without tid/i)."""
+    map_async, regen_repository, MetadataException = mods
     n, threads, haslen, style = case["n"], case["threads"], case["haslen"], case["style"]
     out = case["out"]  # list, out[i-1] for item i
     fail_at = case.get("fail_at", -1)  # raise after that many items were handed out (-1: never)
@@ -97,13 +103,36 @@ def one_run(map_async, case, seed):
             return (1000 + w, acc)
         return None
 
+    class Repo:
+        """What regen_repository needs of a repository: one regeneration callable per worker thread."""
+
+        def _regen_operation_helper(self, **kwargs):
+            w = next(ids)
+
+            def regen(pkg):
+                log.append(("take", w, pkg))
+                nap(n + pkg)
+                kind = kinds[pkg - 1]
+                if kind == "meta":  # broken metadata: reported elsewhere, the worker goes on
+                    raise MetadataException(pkg, "keywords", "unparsable")
+                if kind == "err":  # any other failure is returned as (pkg, exception)
+                    log.append(("emit", w, pkg, 1))
+                    raise ValueError(pkg)
+
+            return regen
+
+    kinds = case.get("kinds") or ["ok"] * n
     functor = gen_functor if style == "gen" else ret_functor
     inp = Sized() if haslen else feed()
     box = {}
 
     def call():
         try:
-            res = map_async(inp, functor, "tag", threads=threads, per_thread_args=lambda: (next(ids),))
+            if style == "regen":
+                res = [(pkg, 1) if isinstance(e, ValueError) and e.args == (pkg,) else (pkg, e)
+                       for pkg, e in regen_repository(Repo(), inp, None, threads=threads)]
+            else:
+                res = map_async(inp, functor, "tag", threads=threads, per_thread_args=lambda: (next(ids),))
             # a result token is a pair of ints; anything else is reported as the token [-1, -1]
             box["results"] = [list(x) if isinstance(x, tuple) and len(x) == 2 and all(isinstance(y, int) for y in x) else [-1, -1]
                               for x in res]
@@ -133,15 +162,19 @@ def one_run(map_async, case, seed):
 BLANK = dict(ev="", n=0, threads=0, haslen=False, failing=False, item=0, w=0, a=0, b=0, raised=False, hung=False, results=[])
 
 
-def mc_cfg(items, thr, fair, mayfail=True, rule="perworker"):
+def mc_cfg(items, thr, fair, mayfail=True, rule="perworker", quit_=False):
     inv = "INVARIANT TypeOK\nINVARIANT AtMostOnce\nINVARIANT NoPhantom\nINVARIANT ResultsSound\nINVARIANT ExactlyOnceAtReturn\nINVARIANT NoStuck\n"
     return (f"SPECIFICATION {'FairSpec' if fair else 'Spec'}\nCONSTANTS\n MaxItems = {items}\n MaxThreads = {thr}\n"
-            f" MayFail = {'TRUE' if mayfail else 'FALSE'}\n SentinelRule = \"{rule}\"\n" + inv + ("PROPERTY Termination\n" if fair else ""))
+            f" MayFail = {'TRUE' if mayfail else 'FALSE'}\n SentinelRule = \"{rule}\"\n QuitOnEmpty = {'TRUE' if quit_ else 'FALSE'}\n" + inv + ("PROPERTY Termination\n" if fair else ""))
 
 
 def run(ck):
     use_repo()
+    from pkgcore.operations.regen import regen_repository
+    from pkgcore.package.errors import MetadataException
     from pkgcore.util.thread_pool import map_async
+
+    mods = (map_async, regen_repository, MetadataException)
 
     ck.rule = ("one call of the real map_async per (call shape, schedule seed); call shapes enumerated by TLC from the model "
                "plus seeded random ones; non-trivial = distinct run with >= 2 items in which at least two different worker "
@@ -155,7 +188,7 @@ def run(ck):
     hung_total = [0]
 
     def execute(case, seed):
-        evs, raised, hung = one_run(map_async, case, seed)
+        evs, raised, hung = one_run(mods, case, seed)
         tid = len(runs)
         runs.append((case, seed, raised))
         for i, e in enumerate(evs):
@@ -192,6 +225,10 @@ def run(ck):
                                 label="MC:ThreadPool_MC single shared sentinel (must violate)")
                     if bad.violated != "NoStuck":
                         raise tlc.MachineryError(f"single-sentinel variant was not rejected as expected: {bad.violated}")
+                    bad = ck.mc("ThreadPool_MC", cfg_text=mc_cfg(2, 2, False, mayfail=False, quit_=True), workers=1, timeout=200,
+                                expect_ok=False, label="MC:ThreadPool_MC worker stops consuming after an empty item (must violate)")
+                    if bad.violated != "ExactlyOnceAtReturn":
+                        raise tlc.MachineryError(f"quitting-worker variant was not rejected as expected: {bad.violated}")
                 # 2. spec -> code
                 mi, mt = ck.pick((3, 3), (4, 3))
                 shapes = ck.export("ThreadPool_Export", cfg_text=f"CONSTANTS\n MaxItems = {mi}\n MaxThreads = {mt}\n")
@@ -200,14 +237,18 @@ def run(ck):
                 reps = ck.pick(1, 3)
                 for c in shapes:
                     for k in range(reps):
-                        execute(dict(n=c["n"], threads=c["threads"], haslen=c["haslen"], style=c["style"], out=list(c["out"])), 1000 * k + 7)
+                        execute(dict(n=c["n"], threads=c["threads"], haslen=c["haslen"], style=c["style"], out=list(c["out"]),
+                                     kinds=list(c["kinds"])), 1000 * k + 7)
                 ck.sample(dict(direction="spec->code", shape=shapes[len(shapes) // 2]))
                 # 3. code -> spec
                 r_ = rng(41)
                 for k in range(ck.pick(250, 2000)):
                     n = r_.choice([0, 1, 2, 3, 5, 8, 13, 21, 34, 50])
-                    case = dict(n=n, threads=r_.randint(1, 8), haslen=r_.random() < 0.5, style=r_.choice(["gen", "ret"]),
+                    case = dict(n=n, threads=r_.randint(1, 8), haslen=r_.random() < 0.5, style=r_.choice(["gen", "ret", "regen"]),
                                 out=[r_.choice([0, 1, 1, 2]) for _ in range(n)])
+                    if case["style"] == "regen":  # metadata regeneration with failing packages
+                        case["kinds"] = [r_.choice(["ok", "ok", "meta", "err"]) for _ in range(n)]
+                        case["out"] = [1 if k_ == "err" else 0 for k_ in case["kinds"]]
                     if r_.random() < 0.1:
                         case["fail_at"] = r_.randint(0, n)
                     execute(case, r_.randint(0, 10**6))
